@@ -35,7 +35,8 @@ MANIFEST = {
             'side exactly once and never back; without the flag nowhere else; '
             'publications bounded (no circulation).  The default of the '
             'forward flag is observed on the real AgentComponent / '
-            'ClientComponent.advance.',
+            'ClientComponent.advance.'
+            '  Third session: the forward flag published by advance() is observed over generated things (single/bulk, tasks bound to a pilot or not, pilots, every state, other keyword arguments).',
     'note': 'transport is the in-memory shim (one total order per pubsub, no '
             'loss): PUB/SUB slow-joiner loss of real ZMQ is outside the check; '
             'the proxy is a shared pubsub as in proxy.py.'}
@@ -50,7 +51,7 @@ ASSUMPTIONS = ['a side is a Session with its own control/state pubsub; the '
                'required']
 SHARDS   = {'quick': 4, 'thorough': 16}
 REQUIRED = {'messages_checked': 500, 'deliveries_counted': 500,
-            'advance_defaults_checked': 4}
+            'advance_defaults_checked': 4, 'advance_things_checked': 500}
 
 CHANNELS = [(rpc.CONTROL_PUBSUB, rpc.PROXY_CONTROL_PUBSUB),
             (rpc.STATE_PUBSUB,   rpc.PROXY_STATE_PUBSUB)]
@@ -296,12 +297,79 @@ def check_advance_defaults(res):
                               {'class': cls.__name__, 'state': state})
 
 
+def check_advance_things(res, rng, n):
+    '''the same question over what components really advance: single things
+    and bulks, tasks bound to a pilot or not, pilots, every state of the
+    models, the other keyword arguments in any combination'''
+    tstates = [s for s in rps._task_state_values  if s]
+    pstates = [s for s in rps._pilot_state_values if s]
+    for _ in range(n):
+        cls, default = rng.choice([(m_comp.AgentComponent, True),
+                                   (m_comp.ClientComponent, False)])
+        kind  = rng.choice(['task', 'task', 'task', 'pilot'])
+        state = rng.choice(tstates if kind == 'task' else pstates)
+
+        def thing(i):
+            if kind == 'pilot':
+                return {'uid': 'pilot.%04d' % i, 'type': 'pilot',
+                        'state': rps.NEW, 'description': {'cores': 1}}
+            t = {'uid': 't.%03d' % i, 'type': 'task', 'state': rps.NEW,
+                 'description': {'executable': 'true'}, 'origin': 'client',
+                 'tmgr': 'tmgr.0000'}
+            bound = rng.choice([None, '', 'pilot.0000', 'pilot.0001'])
+            if bound is not None:
+                t['pilot'] = bound
+            if rng.random() < 0.3:
+                t['target_state'] = rng.choice([rps.DONE, rps.FAILED,
+                                                rps.CANCELED])
+            return t
+
+        k      = rng.choice([1, 1, 2, 5])
+        things = [thing(i) for i in range(k)]
+        arg    = things[0] if k == 1 and rng.random() < 0.5 else things
+        kw     = {'publish': True, 'push': False}
+        expect = default
+        r = rng.random()
+        if r < 0.35:
+            kw['fwd'] = expect = True
+        elif r < 0.7:
+            kw['fwd'] = expect = False
+        if rng.random() < 0.3:
+            kw['prof'] = rng.choice([True, False])
+        if rng.random() < 0.2:
+            kw['ts'] = 12345.6
+
+        c = cls.__new__(cls)
+        c._log, c._prof = NullLog(), NullProf()
+        c._uid = 'comp.0000'
+        c._publishers = {rpc.STATE_PUBSUB: RecPublisher(rpc.STATE_PUBSUB)}
+        c._outputs = dict()
+        try:
+            c.advance(arg, state, **kw)
+        except Exception as e:
+            res.violation('advance-raised/%s' % cls.__name__, '%s(%s, %r): %r'
+                          % (cls.__name__, state, kw, e), {'things': things})
+            return
+        res.count('advance_things_checked')
+        for msg in c._publishers[rpc.STATE_PUBSUB].msgs:
+            if bool(msg.get('fwd')) != expect:
+                res.violation('advance-forward-flag/%s' % cls.__name__,
+                              '%s.advance(%d %s(s) %s, %s) published fwd=%r'
+                              % (cls.__name__, k, kind,
+                                 [t.get('pilot') for t in things], kw,
+                                 msg.get('fwd')),
+                              {'class': cls.__name__, 'state': state,
+                               'things': things, 'kw': kw})
+                return
+
+
 def run(ctx):
     res = Result()
     run_cells(ctx, res)
     res.exhaustive = True
     if ctx.shard == 0:
         check_advance_defaults(res)
+    check_advance_things(res, ctx.rng('advance'), ctx.n(2000, 200000))
 
     rng = ctx.rng('seq')
     for i in range(ctx.n(600, 600000)):
